@@ -944,6 +944,8 @@ pub fn worker_main(prop: Arc<dyn Property>) -> ! {
     let input = unsafe { std::fs::File::from_raw_fd(in_fd) };
     let mut output = unsafe { std::fs::File::from_raw_fd(out_fd) };
     crate::fmt::install_panic_recorder();
+    // no ICE dump files from rustfmt binaries spawned by checks
+    std::env::set_var("RUSTC_ICE", "0");
     let root = verif_root();
     let build = root.join(".build");
     let tmp = build.join("tmp").join(format!("w{}", std::process::id()));
